@@ -538,3 +538,79 @@ def queries_are_pure(ctx, rule='C14-T6'):
             if not bad:
                 ctx.ok(rule, f'{cq.split(".")[-1]}.{nm}: writes nothing of the chunk', m.loc())
     ctx.floor(rule, 'query methods and properties of the chunk classes', n, 15)
+
+
+def tables_have_no_truth_value(ctx, rule='C14-T7'):
+    """Whether a stage has run is asked with `is None` / `is not None`: a stage table (or the chunk data) used as a
+    condition - `if self._slices:`, `self._slices or []`, `not self._groups` - works as long as the attribute is None
+    and raises pandas' "truth value of a DataFrame is ambiguous" ValueError as soon as the stage has run: the call is
+    then neither refused with AmpycloudError nor carried out."""
+    from sa.rules.common import effects
+    fx = effects(ctx)
+    p = ctx.project
+    TABLE_ATTRS = ('_slices', '_groups', '_layers', '_data')
+
+    def is_table(t):
+        t = T.peel(t)
+        return tag(t) == 'attr' and t[2] in TABLE_ATTRS and t[1] == SELF
+    n = 0
+    top = p.klass('ampycloud.data.CeiloChunk', rule)
+    methods = {}
+    for k in reversed(p.mro(top)):
+        methods.update({nm: m for nm, m in k.methods.items()})
+    for nm, m in sorted(methods.items()):
+        ctx.saw(m)
+        seen = set()
+        for e in fx.own_events(m.qname):
+            for tn, v in fx.terms_of(e):
+                if v is None:
+                    continue
+                n += 1
+                hits = []
+                if tn == 'guard':
+                    hits += [l for l in guard_literals(v) if is_table(l) or (tag(l) == 'not' and is_table(l[1]))]
+                for x in T.walk(v):
+                    if tag(x) in ('or', 'and') and tn != 'guard' and any(is_table(o) for o in x[1]):
+                        hits.append(x)
+                    elif tag(x) == 'not' and is_table(x[1]) and tn != 'guard':
+                        hits.append(x)
+                    elif tag(x) == 'call' and x[1] == ('g', 'builtins.bool') and x[2] and is_table(x[2][0]):
+                        hits.append(x)
+                for h in hits:
+                    if T.key(h) in seen:
+                        continue
+                    seen.add(T.key(h))
+                    ctx.violation(rule, m.qname, e.node, e.loc(),
+                                  f'{T.show(h, maxlen=100)} takes the truth value of a stage table: None is falsy, a DataFrame '
+                                  'raises ValueError ("truth value ... is ambiguous") - ask `is None` / `is not None`',
+                                  instance=f'{m.qname}: stage tables are tested with `is None`, never for truth')
+    ctx.ok(rule, f'{n} terms in the chunk methods: no stage table used as a condition', '')
+    ctx.floor(rule, 'terms examined in the chunk methods', n, 300)
+
+
+def no_hidden_stage_state(ctx, rule='C14-T8'):
+    """What a stage leaves behind is its table, its id column and (find_groups) the isolation status / (find_layers) the
+    component counts of the level below - nothing else.  Another instance attribute written while a stage runs (a flag
+    "the fall-back was used once", a memo of base heights) is state the next call of the same stage starts from: the
+    repeated stage is no longer idempotent, and a later stage depends on how often an earlier one was called."""
+    ALLOWED = {'_slices', '_groups', '_layers', '_data'}
+    n = 0
+    for m, binding, own, label in stage_methods(ctx, rule):
+        if label.startswith('metar_msg'):
+            continue
+        ex, s = run_inlined(ctx, m, binding)
+        n += 1
+        seen = set()
+        for e in s.events:
+            if e.guard == T.FALSE or e.kind not in ('store', 'aug', 'mutcall', 'del') or e.base is None:
+                continue
+            b = e.target if tag(e.target) == 'attr' and e.target[1] == SELF else T.root(e.base)
+            if tag(b) == 'attr' and b[1] == SELF and b[2] not in ALLOWED and b[2] not in seen:
+                seen.add(b[2])
+                ctx.violation(rule, e.func.qname, e.node, e.loc(),
+                              f'{label} writes self.{b[2]}: instance state besides the tables and the per-hit ids - a second '
+                              'call of the stage (or a later stage) starts from what the first one left there',
+                              instance=f'{label}: writes tables and id columns only')
+        if not seen:
+            ctx.ok(rule, f'{label}: writes nothing but tables and id columns', m.loc())
+    ctx.floor(rule, 'stage entry points', n, 6)
